@@ -21,13 +21,9 @@ OVFS = ("WRAP", "SATURATE")
 ERR_COQ = {"index": "EIndex", "subvector": "ESubvector", "wider": "EWider", "range": "ERange",
            "width0": "EWidth0", "resize": "EResize", "assert": "EAssert"}
 
-# Which rendering of the code the correspondence runs against:
-#   "coded" = Models/Fixed.v `agrees`       : /repo as it is (the tree with the C19 fix commits)
-#   "eqfix" = Models/Fixed.v `agrees_eqfix` : /repo after seeded/_proposed_fixes/C19_eq_fix.diff
-#             (switch the default when that patch is applied; only `eq_num` differs)
-MODEL = os.environ.get("C19_MODEL", "eqfix")
-PRED = {"coded": "agrees", "eqfix": "agrees_eqfix"}[MODEL]
-RUN = {"coded": "run", "eqfix": "run_eqfix"}[MODEL]
+# the correspondence runs against Models/Fixed.v `agrees` (= `run`): the single model of the current /repo tree
+PRED = "agrees"
+RUN = "run"
 
 PREAMBLE = ("From Coq Require Import ZArith List Bool.\nImport ListNotations.\n"
             "From Cohdl Require Import Models.Fixed.\nLocal Open Scope Z_scope.\n")
@@ -609,7 +605,6 @@ def run(ck: common.Check, replay=None):
                           "neighbouring_spec_violation": cases[neighbours[0]] if neighbours else None,
                           "cases": [cases[i]], "broken": "correspondence Models/Fixed.v <-> cohdl/std/_fixed.py"},
                          no_input=not neighbours)
-    ck.cov["model"] = MODEL
     ck.cov["model_vs_code_mismatches"] = len(mismatch)
     ck.cov["spec_violating_cases"] = len(spec_bad)
     for c, r in list(zip(cases, real))[:3] + list(zip(cases, real))[len(CORPUS) + 1000:len(CORPUS) + 1003]:
